@@ -229,7 +229,16 @@ func mergeAnalysisConfig(base *analysis.Config, filename string, perFile map[str
 	if symbols, ok := perFile[filename]; ok && len(symbols.packages) > 0 {
 		currentPackages = symbols.packages
 	}
-	for path, symbols := range perFile {
+	// Visit the other files in a fixed order: when two of them define the same
+	// global, the later entry wins in the analyzer, and ranging over the map
+	// made the minified output (and its meaning) differ from run to run.
+	paths := make([]string, 0, len(perFile))
+	for path := range perFile {
+		paths = append(paths, path)
+	}
+	sort.Strings(paths)
+	for _, path := range paths {
+		symbols := perFile[path]
 		if path == filename {
 			continue
 		}
